@@ -221,17 +221,40 @@ def parseGlobalVariable {σ : Type} (attrs : List Attr) (base : Option ObjKind) 
   | .error e => .error e
   | .ok attr => declaratorLoop (base.bind registerType) isExtern attr registry ds
 
-/-- `parse_rootdefinition_constantbuffer` as far as binding goes: the `lang_binding` of the new cbuffer -/
-def parseConstantBuffer (name : String) (attrs : List Attr) (anns : List Annotation) : Except FrontErr LangBinding :=
+/-- `for location_annotation in &def.location_annotations` of ONE member of a cbuffer: a register or a semantic is
+    rejected, the first packoffset is kept (`seen`), a second one rejected; nothing else is written -/
+def memberAnnotations (name : String) : Bool → List Annotation → Except FrontErr Unit
+  | _, [] => .ok ()
+  | _, .register _ :: _ => .error (.unexpectedRegisterAnnotation name)
+  | seen, .packOffset :: rest => if seen then .error (.unexpectedPackOffset name) else memberAnnotations name true rest
+  | _, .semantic :: _ => .error (.unexpectedSemantic name)
+
+/-- `for member in &cb.members { for def in &member.defs {..} }` as far as annotations go: members in source order, the
+    first rejection aborts -/
+def memberLoop : List (String × List Annotation) → Except FrontErr Unit
+  | [] => .ok ()
+  | (n, anns) :: rest =>
+    match memberAnnotations n false anns with
+    | .error e => .error e
+    | .ok () => memberLoop rest
+
+/-- `parse_rootdefinition_constantbuffer` as far as binding goes: the `lang_binding` of the new cbuffer.
+    Order as in the code: the attributes, then the members (their annotations can only reject), then the block's own
+    annotations on a fresh `lang_binding`, the overrides, the bindless check. -/
+def parseConstantBuffer (name : String) (attrs : List Attr) (members : List (String × List Annotation))
+    (anns : List Annotation) : Except FrontErr LangBinding :=
   match parseAttributes attrs with
   | .error e => .error e
   | .ok attr =>
-    match annotate (some .B) (.unexpectedRegisterAnnotation name) name LangBinding.default anns with
+    match memberLoop members with
     | .error e => .error e
-    | .ok slot =>
-      let slot := applyOverrides attr slot
-      -- "A constant buffer block can not be bindless so the attribute has no meaning here"
-      if attr.bindless then .error (.attributeUnknown "bindless") else .ok slot
+    | .ok () =>
+      match annotate (some .B) (.unexpectedRegisterAnnotation name) name LangBinding.default anns with
+      | .error e => .error e
+      | .ok slot =>
+        let slot := applyOverrides attr slot
+        -- "A constant buffer block can not be bindless so the attribute has no meaning here"
+        if attr.bindless then .error (.attributeUnknown "bindless") else .ok slot
 
 /-! ## A whole file: root definitions in source order -/
 
@@ -245,7 +268,8 @@ structure Shape where
 inductive RootItem where
   /-- struct / function / …: a root definition that is never bound -/
   | other (name : String)
-  | cbuffer (name : String) (attrs : List Attr) (annotations : List Annotation)
+  /-- a cbuffer: attributes, the annotations of its members (name, annotations) in source order, its own annotations -/
+  | cbuffer (name : String) (attrs : List Attr) (members : List (String × List Annotation)) (annotations : List Annotation)
   /-- one global-variable declaration: attributes, base type, storage-class keywords, declarators -/
   | globals (attrs : List Attr) (base : Option ObjKind) (mods : List StorageMod) (ds : List (Declarator Shape))
   deriving Repr
@@ -264,8 +288,8 @@ def frontItems : List RootItem → Except FrontErr (List (String × Decl))
     let here : Except FrontErr (List (String × Decl)) :=
       match item with
       | .other n => .ok [(n, .other)]
-      | .cbuffer n attrs anns =>
-        match parseConstantBuffer n attrs anns with
+      | .cbuffer n attrs members anns =>
+        match parseConstantBuffer n attrs members anns with
         | .error e => .error e
         | .ok slot => .ok [(n, .cbuffer slot.set)]
       | .globals attrs base mods ds =>
